@@ -650,6 +650,36 @@ func tokenValueOrigin(v ssa.Value, tok types.Type, seen map[ssa.Value]bool) bool
 			}
 		}
 		return true
+	case *ssa.Extract, *ssa.Call:
+		// a string result of an in-module helper: every return that is not the empty/zero constant
+		// (the companion of "not found") must itself be a token's value
+		var call *ssa.Call
+		idx := 0
+		if ex, ok := t.(*ssa.Extract); ok {
+			call, _ = ex.Tuple.(*ssa.Call)
+			idx = ex.Index
+		} else {
+			call = t.(*ssa.Call)
+		}
+		if call == nil || call.Call.StaticCallee() == nil || len(call.Call.StaticCallee().Blocks) == 0 {
+			return false
+		}
+		callee := call.Call.StaticCallee()
+		n := 0
+		for _, b := range callee.Blocks {
+			ret, ok := b.Instrs[len(b.Instrs)-1].(*ssa.Return)
+			if !ok || idx >= len(ret.Results) {
+				continue
+			}
+			if _, isC := ret.Results[idx].(*ssa.Const); isC {
+				continue
+			}
+			n++
+			if !tokenValueOrigin(ret.Results[idx], tok, seen) {
+				return false
+			}
+		}
+		return n > 0
 	}
 	return false
 }
